@@ -24,6 +24,9 @@ type Case struct {
 	// argument that is equal in both (built once, by Built: findall | univ | copy); both calls have one answer
 	Then  []*rt.Term `json:"then,omitempty"`
 	Built string     `json:"built,omitempty"`
+	// Tail: the goal stands in the query text itself and every ground list argument of >= 2 elements is written
+	// [E1|T] with T bound to the rest by an earlier goal (a list completed late is the same list)
+	Tail bool `json:"tail,omitempty"`
 }
 
 func (c Case) String() string {
@@ -543,6 +546,7 @@ type stats struct {
 	nAnswers int
 	metaUsed bool
 	sequel   bool
+	tail     bool
 }
 
 func check(c Case) (st stats, err error) {
@@ -573,6 +577,11 @@ func check(c Case) (st stats, err error) {
 		}
 		if d := diffMS(multiset(want), multiset(got.answers), "relation", "real"); d != "" {
 			return st, fmt.Errorf("%s: answers differ from the relation: %s", rt.C(c.Pred, c.Args...), d)
+		}
+	}
+	if c.Tail && ok && got.err == nil {
+		if err := checkTail(i, c, want, &st); err != nil {
+			return st, err
 		}
 	}
 	// metamorphic: the more instantiated call selects exactly the matching subset of the general call
@@ -610,6 +619,65 @@ func check(c Case) (st stats, err error) {
 		}
 	}
 	return st, nil
+}
+
+// checkTail: the same call written into the query text, its list arguments completed by bindings made before it.
+func checkTail(i *sut.I, c Case, want [][]*rt.Term, st *stats) error {
+	names := map[int64]string{}
+	var b strings.Builder
+	var args []interface{}
+	var as []string
+	rewritten := false
+	tailOf := func(a *rt.Term) ([]*rt.Term, bool) {
+		es, proper := properList(a)
+		return es, !isVar(a) && proper && len(es) >= 2 && len(a.Vars(nil)) == 0
+	}
+	// first the bindings (their placeholders come first in the text), then the call
+	for k, a := range c.Args {
+		if es, ok := tailOf(a); ok {
+			rewritten = true
+			fmt.Fprintf(&b, "T%d = ", k)
+			render(rt.List(es[1:], nil), names, &args, &b)
+			b.WriteString(", ")
+		}
+	}
+	for k, a := range c.Args {
+		var ab strings.Builder
+		switch es, ok := tailOf(a); {
+		case isVar(a):
+			fmt.Fprintf(&ab, "A%d", a.I)
+		case ok:
+			ab.WriteString("[")
+			render(es[0], names, &args, &ab)
+			fmt.Fprintf(&ab, "|T%d]", k)
+		default:
+			render(a, names, &args, &ab)
+		}
+		as = append(as, ab.String())
+	}
+	if !rewritten {
+		return nil
+	}
+	// (placeholders are consumed in text order: the argument texts are used once, in the call; the values after the
+	// call are read off a second term built from variables only)
+	var outs []string
+	for k, a := range c.Args {
+		if isVar(a) {
+			outs = append(outs, fmt.Sprintf("A%d", a.I))
+		} else {
+			outs = append(outs, fmt.Sprintf("_K%d", k))
+		}
+	}
+	b.WriteString("'" + c.Pred + "'(" + strings.Join(as, ",") + "), Rs = [" + strings.Join(outs, ",") + "].")
+	res := i.Query(b.String(), []string{"Rs"}, maxAnswers, 3_000_000, args...)
+	if res.Err != nil {
+		return fmt.Errorf("%s with its list arguments completed by earlier bindings ([E|T], T bound) raised %s; written out it has %d answers", rt.C(c.Pred, c.Args...), res.Err, len(want))
+	}
+	if len(res.Answers) != len(want) {
+		return fmt.Errorf("%s with its list arguments completed by earlier bindings ([E|T], T bound) has %d answers; written out it has %d", rt.C(c.Pred, c.Args...), len(res.Answers), len(want))
+	}
+	st.tail = true
+	return nil
 }
 
 // checkSequel: two calls in one query, the second after the first, sharing their equal list arguments as one
@@ -926,6 +994,7 @@ func genCase() *rapid.Generator[Case] {
 				break
 			}
 		}
+		c.Tail = u(t, 4, "tail") == 3
 		if u(t, 3, "sequel") == 0 {
 			// a second tuple sharing one list argument with the first; the call mode is redrawn so that both calls
 			// are deterministic: one argument free (the last, else the first), the others bound
@@ -1116,6 +1185,9 @@ func TestProp(t *testing.T) {
 		}
 		if st.sequel {
 			r.Label("two_calls_sharing_a_list_argument")
+		}
+		if st.tail {
+			r.Label("list_arguments_completed_by_earlier_bindings")
 		}
 		if st.asserted && st.nAnswers >= 2 {
 			r.Label("answers>=2")
